@@ -89,7 +89,7 @@ func main() {
 		fmt.Fprintln(os.Stderr, "environment:", err)
 		os.Exit(2)
 	}
-	defer w.e.Close()
+	defer func() { w.e.Close() }()
 	emitted := 0
 	emit := func(k *Case) {
 		// order lists per account grow with every new-order case and are walked by the handlers:
